@@ -26,6 +26,16 @@ CHECKS['C04'] = dict(
    note='context tree shape and thread roles fixed by the scenarios; mutex acquisitions are atomic steps (mutex correctness is C08); store buffer emulated for the binder only; binder threads stay alive until quiescence (thread exit orphans a context list by design)',
    technique='PlusCal protocol spec (SC + TSO) checked by TLC, edge-complete replay into real code incl. store-buffer emulation, TLC trace validation against CtxAbs',
    design='4 (C04), 6.1, 6.2')
+CHECKS['C09'] = dict(
+   text='TLC model-checks MicroQueue (tickets, lane choice k*3 mod 8, per-lane turnstiles, page list, invalid entries, failed page allocation; '
+        'no duplicate, nothing invented, per-producer FIFO, no dereference of the invalid-page marker) with the constant FIXED probed from the code. '
+        'Histories (Inv/Res) of the real concurrent_queue and concurrent_bounded_queue - four page-size classes, capacities 1-3, blocking push/pop, '
+        'try variants, abort, negative-size states - recorded under seeded random cooperative schedules at atomic-access granularity with a '
+        'stuck detector, and under injected faults (the k-th page allocation / element copy throws; each case in a forked child, a crash is an event), '
+        'are checked for linearizability against QueueAbs by TLC (unlogged internal Lin steps). The real-code schedules are sampled, not enumerated.',
+   note='schedules of the real-code part are seeded random (not TLC-enumerated); sequentially consistent; 2-4 threads, <= 7 ops per thread; known finding: aborted push leaves a phantom slot (DESIGN 6.9)',
+   technique='PlusCal protocol spec checked by TLC + TLC linearizability validation of recorded real histories (incl. fault injection) against QueueAbs',
+   design='4 (C09), 6.4, 6.9')
 REASON_PENDING = 'check not built yet in this round (planned in DESIGN.md section 4); no verdict is claimed'
 m = {
  'version': 1,
